@@ -34,7 +34,9 @@ ENTRY = dict(
             "at most one create per address, all schedules, any number of addresses": "theorem (per_address_single_device)",
             "every caller (consumer, user get()) obtains the same object at every time": "theorem (per_address_single_device, single_device, entry_is_stable, same_object_at_every_time)",
             "the same object through EVERY public way to obtain the device (protocol.data[name], get_nowait, attribute access, a subscribed callback, get / wait_for + read, the consumer's own), at every time":
-                "theorem (sees_the_entry, same_object_over_all_routes over Entry.Route) + correspondence (five user routes x every schedule; data / get_nowait / attribute / subscribed callbacks read after every event)",
+                "theorem (sees_the_entry, same_object_over_all_routes over Entry.Route; the theorem CONTENT is the routes `subscribed` (every announcement for the address announced its entry) and `returned j` (every returned caller, consumer or get(), holds the entry), each related to the reads at the same and every later moment) + "
+                "by definition of `Entry.sees` (the three read routes protocol.data[name] / get_nowait / attribute access are the SAME expression `published a == some d` in the model — in the code all three read the one dict EventManager.data — so for them the theorem says no more than entry_is_stable) + "
+                "correspondence (carries data / get_nowait / attribute: five user routes x every schedule; data / get_nowait / attribute / subscribed callbacks read after every event)",
             "addresses sharing the lock do not interfere; no object serves two addresses": "theorem (addresses_do_not_interfere)",
             "set-up started once": "theorem (per_address_single_device: setupsFor = createdFor <= 1, = 1 once the address has an entry)",
             "every frame is handled by that object": "theorem (per_address_single_device safety; progress: always_handleable (possibility) AND inevitability: real_moves_bounded (every schedule of N callers has at most 3N state-changing moves) + handled_when_nothing_moves (when none of them can move every frame caller is handled or dropped: no deadlock); final_ok: complete schedules leave no frame unhandled) + correspondence",
